@@ -29,40 +29,32 @@ NUMERIC = set(map(ord, "0123456789 "))
 
 # findings of this property that KNOWN_FINDINGS.json may not list yet (proposed entries; the file wins)
 PROPOSED = [
- {"id": "F81", "property": "C08", "status": "known",
-  "what": "a constrained INTEGER that asn1c stores in INTEGER_t (a bound outside 32 bits) is checked through asn_INTEGER2long: "
-          "valid values outside [-2^63, 2^63-1] are rejected with 'value too large'",
-  "witness": {"module": "M DEFINITIONS AUTOMATIC TAGS ::= BEGIN Y ::= INTEGER (0..18446744073709551615) END",
+ {"id": "F180", "property": "C08", "status": "known",
+  "what": "what remains of F81: the generated checker of an INTEGER_t-backed INTEGER still converts the value into a 64-bit C variable before comparing "
+          "(`long` through asn_INTEGER2long when the lower edge of the constraint is negative or MIN, `unsigned long` through asn_INTEGER2ulong otherwise): "
+          "valid values outside that variable are rejected with 'value too large' (INTEGER (-1..18446744073709551615) rejects 2^63, INTEGER (0..2^70) rejects 2^64); "
+          "a repair needs a comparison on the INTEGER_t octets (INTEGER_compare against constant INTEGER_t bounds), i.e. new generated code",
+  "witness": {"module": "M DEFINITIONS AUTOMATIC TAGS ::= BEGIN Y ::= INTEGER (-1..18446744073709551615) END",
               "type": "Y", "op": "check (int 9223372036854775808)", "c_output": "fail", "expect": "^fail rc=-1"},
-  "matcher": "C rejects (message 'value too large') a value satisfying the constraint of an INTEGER_t-backed INTEGER, |value| beyond long"},
- {"id": "F83", "property": "C08", "status": "known",
-  "what": "a single-range FROM constraint on UTF8String is not compiled into any test (asn1c_emit_constraint_tables returns early / only checks UTF-8 validity)",
-  "witness": {"module": "M DEFINITIONS AUTOMATIC TAGS ::= BEGIN R ::= UTF8String (FROM(\"a\"..\"z\")) END",
+  "matcher": "C rejects (message 'value too large') a value satisfying the constraint of an INTEGER_t-backed INTEGER, the value lying outside the C variable "
+             "(unsigned long when the lower edge is a value >= 0, else long)"},
+ {"id": "F181", "property": "C08", "status": "known",
+  "what": "what remains of F83: a FROM constraint on UTF8String that reaches beyond U+007F is not compiled into any test (the generated alphabet loop works octet by octet; "
+          "asn1c_emit_constraint_tables only checks UTF-8 validity, or nothing when a SIZE constraint is present); a repair needs a code-point decoding loop in the generated checker",
+  "witness": {"module": "M DEFINITIONS AUTOMATIC TAGS ::= BEGIN R ::= UTF8String (FROM(\"a\"..{0,0,0,255})) END",
               "type": "R", "op": "check (os 41)", "c_output": "ok", "expect": "^ok$"},
-  "matcher": "C accepts a character outside the single-range FROM of a UTF8String"},
+  "matcher": "C accepts a character outside the FROM of a UTF8String whose FROM reaches beyond U+007F"},
+ {"id": "F182", "property": "C08", "status": "known",
+  "what": "a value (or SIZE) bound of 2^64 or more in magnitude is printed into the generated comparison as a plain decimal constant, which the C compiler truncates "
+          "(gcc: 'integer constant is too large for its type'): INTEGER (0..1180591620717411303424) is compiled into `value <= 0` in effect and rejects 1",
+  "witness": {"module": "M DEFINITIONS AUTOMATIC TAGS ::= BEGIN Y ::= INTEGER (0..1180591620717411303424) END",
+              "type": "Y", "op": "check (int 1)", "c_output": "fail", "expect": "^fail rc=-1"},
+  "matcher": "witness only (the C08 generators write no bound beyond 64 bits; the Lean guard `boundsFit` keeps such types outside the proved domain)"},
  {"id": "F84", "property": "C08", "status": "known",
   "what": "UTF8String_length accepts RFC 2279-era sequences that are not UTF-8 today (ISO 10646 / RFC 3629): encoded surrogates, 5- and 6-octet forms, > U+10FFFF",
   "witness": {"module": "M DEFINITIONS AUTOMATIC TAGS ::= BEGIN U ::= UTF8String END",
               "type": "U", "op": "check (os eda080)", "c_output": "ok", "expect": "^ok$"},
   "matcher": "C accepts a UTF8String whose octets contain a surrogate (ED A0..BF), a lead octet F5..FD, or F4 90..BF"},
- {"id": "F87", "property": "C08", "properties": ["C08", "C04"], "status": "known",
-  "what": "a value constraint on BOOLEAN (B ::= BOOLEAN (TRUE)) makes asn1c emit `value = (*(const long *)sptr) ? 1 : 0;` although BOOLEAN_t is an int: "
-          "the generated checker reads 8 octets from a 4-octet object (ASan: heap-buffer-overflow READ of size 8)",
-  "witness": {"module": "M DEFINITIONS AUTOMATIC TAGS ::= BEGIN B ::= BOOLEAN (TRUE) END",
-              "type": "B", "op": "check (bool t)", "expect": "^CRASH"},
-  "matcher": "asn_check_constraints on a BOOLEAN with a value constraint (not generated by the C08 generator; witness only)"},
- {"id": "F86", "property": "C08", "status": "known",
-  "what": "a BMPString with any SIZE / FROM constraint is checked against the compiler's default alphabet 0..65533, so the cells FFFE and FFFF are rejected, "
-          "while the unconstrained BMPString checker accepts them (the two checkers disagree on the same characters)",
-  "witness": {"module": "M DEFINITIONS AUTOMATIC TAGS ::= BEGIN B ::= BMPString (SIZE(1)) END",
-              "type": "B", "op": "check (os ffff)", "c_output": "fail", "expect": "^fail rc=-1"},
-  "matcher": "C rejects a constrained BMPString value that contains the cell FFFE or FFFF and satisfies SIZE and FROM"},
- {"id": "F85", "property": "C08", "status": "known",
-  "what": "a union whose leftmost/rightmost edges make the whole span vacuous is dropped as a whole: INTEGER (MIN..0 | 5..MAX) and SIZE(0..2 | 5..MAX) "
-          "in a member are not tested at all (nor in a named type)",
-  "witness": {"module": "M DEFINITIONS AUTOMATIC TAGS ::= BEGIN S ::= SEQUENCE { a INTEGER (MIN..0 | 5..MAX) } END",
-              "type": "S", "op": "check (seq (a (int 3)))", "c_output": "ok", "expect": "^ok$"},
-  "matcher": "C accepts a value in a gap of a union constraint whose overall span is MIN..MAX (value) or 0..MAX (SIZE)"},
 ]
 
 # ---------------------------------------------------------------------------------------------
@@ -127,7 +119,8 @@ def ttext(t, ind=1):
     if k in LK:
         cs = []
         if t.get("size"): cs.append("SIZE" + cons_text(t["size"]))
-        if t.get("alpha"): cs.append("FROM(" + " | ".join('"%s"' % a if len(a) == 1 else '"%s".."%s"' % (a[0], a[1]) for a in t["alpha"]) + ")")
+        ch = lambda x: '"%s"' % x if ord(x) < 0x7f else "{0,0,%d,%d}" % (ord(x) >> 8, ord(x) & 0xff)     # (asn1c reads a cstring octet by octet)
+        if t.get("alpha"): cs.append("FROM(" + " | ".join(ch(a) if len(a) == 1 else ch(a[0]) + ".." + ch(a[1]) for a in t["alpha"]) + ")")
         return pre + k + ((" (" + " ^ ".join(cs) + ")") if cs else "")
     if k in ("SEQUENCE", "SET", "CHOICE"):
         items = []
@@ -438,19 +431,6 @@ def resolve(t, env):
     while t["k"] == "REF": t = env[t["name"]]; hops += 1
     return t, hops
 
-def vacuous_int(c):
-    rs = ranges(c)
-    if rs is None: return False
-    lo, hi = overall(rs)
-    if lo is None and hi is None: return True
-    return int_repr(c) == "ulong" and len(rs) == 1 and lo == 0 and hi is None
-
-def vacuous_size(c):
-    rs = ranges(c)
-    if rs is None: return False
-    lo, hi = overall(rs)
-    return (lo is None or lo == 0) and hi is None
-
 LAX_UTF8 = re.compile(rb"\xed[\xa0-\xbf]|[\xf5-\xfd]|\xf4[\x90-\xbf]")
 
 def explain(ctx, T, t, v, env, c_accepts, viols, c_msg):
@@ -463,14 +443,8 @@ def explain(ctx, T, t, v, env, c_accepts, viols, c_msg):
             if st is not None:
                 rt, hops = resolve(st, env)
                 k = rt["k"]
-                if k == "INTEGER" and what == "value":
-                    rs = ranges(rt.get("cons"))
-                    if overall(rs) == (None, None) and len(rs) > 1: fid = "F85"
-                elif k in ("SEQUENCE OF", "SET OF") and what == "size":
-                    if vacuous_size(rt["size"]) and len(ranges(rt["size"])) > 1: fid = "F85"
-                elif k == "UTF8String" and what == "from" and len(alpha_ranges(rt) or []) == 1: fid = "F83"
+                if k == "UTF8String" and what == "from" and (alpha_ranges(rt) or [(0, 0)])[-1][1] >= 0x80: fid = "F181"
                 elif k == "UTF8String" and what == "malformed" and LAX_UTF8.search(str_octets(k, sv)): fid = "F84"
-                elif k in LK and what == "size" and vacuous_size(rt["size"]) and len(ranges(rt["size"])) > 1: fid = "F85"
             if fid is None: return None
             ids.add(fid)
         return sorted(ids)[0] if ids else None
@@ -479,22 +453,15 @@ def explain(ctx, T, t, v, env, c_accepts, viols, c_msg):
         if "value too large" in c_msg:
             def wide_big(t, v):
                 t, _ = resolve(t, env); k = t["k"]
-                if k == "INTEGER": return int_repr(t.get("cons")) == "wide" and not (-(1 << 63) <= v < (1 << 63))
+                if k == "INTEGER":
+                    lo = overall(ranges(t["cons"]))[0] if t.get("cons") else None
+                    inside = (0 <= v < (1 << 64)) if (lo is not None and lo >= 0) else (-(1 << 63) <= v < (1 << 63))
+                    return int_repr(t.get("cons")) == "wide" and not inside
                 if k in ("SEQUENCE", "SET"): return any(wide_big(c["type"], v[c["id"]]) for c in t["comps"] if c["id"] in v)
                 if k == "CHOICE": return wide_big(next(c for c in t["comps"] if c["id"] == v[0])["type"], v[1])
                 if k in ("SEQUENCE OF", "SET OF"): return any(wide_big(t["elem"], x) for x in v)
                 return False
-            if wide_big(t, v): return "F81"
-        def bmp_nonchar(t, v):
-            t, _ = resolve(t, env); k = t["k"]
-            if k == "BMPString":
-                b = str_octets(k, v)
-                return bool(t.get("size") or t.get("alpha")) and len(b) % 2 == 0 and any(b[i] == 0xff and b[i + 1] >= 0xfe for i in range(0, len(b), 2))
-            if k in ("SEQUENCE", "SET"): return any(bmp_nonchar(c["type"], v[c["id"]]) for c in t["comps"] if c["id"] in v)
-            if k == "CHOICE": return bmp_nonchar(next(c for c in t["comps"] if c["id"] == v[0])["type"], v[1])
-            if k in ("SEQUENCE OF", "SET OF"): return any(bmp_nonchar(t["elem"], x) for x in v)
-            return False
-        if "constraint failed" in c_msg and bmp_nonchar(t, v): return "F86"
+            if wide_big(t, v): return "F180"
         return None
 
 # ---------------------------------------------------------------------------------------------
@@ -517,6 +484,9 @@ def shapes_module():
         ("I19", I(U((None, -5), (0, 10)))), ("I20", I(U((0, 5), (10, None)))), ("I21", I(U((0, 5), (4294967295, 4294967295)))),
         ("I22", I(U((1, 1), (3, 3), (5, 7), (100, None)))), ("I23", I(C(2147483647, None))), ("I24", I(C(-1, 4294967295))),
         ("I25", I(U((-10, -5), (5, 10)))),
+        # INTEGER_t-backed: read through asn_INTEGER2ulong when the lower edge is >= 0 (former F81 region), through asn_INTEGER2long otherwise (F180)
+        ("I26", I(C(5000000000, None))), ("I27", I(C(-1, (1 << 64) - 1))), ("I28", I(U((0, 5), (1 << 63, (1 << 64) - 1)))),
+        ("I30", I(U((3000000000, 3000000000), (1 << 63, None)))), ("I31", I(C(None, -5000000000))),
         ("F26", I(C(0, 4294967295))),
         ("OS1", S("OCTET STRING", C(1, None))), ("OS2", S("OCTET STRING", C(0, 5))), ("OS3", S("OCTET STRING", C(4, 4))),
         ("OS4", S("OCTET STRING", U((1, 1), (3, 4)))), ("OS5", S("OCTET STRING", U((0, 2), (5, 6)))), ("OS6", S("OCTET STRING")),
@@ -552,7 +522,7 @@ def shapes_module():
         ("C1", T("CHOICE", comps=[M("a", I(C(0, 7))), M("b", T("BOOLEAN")), M("c", T("REF", name="L1")), M("d", T("SEQUENCE OF", elem=T("BOOLEAN"), size=C(1, 1))),
                                    M("e", T("REF", name="Q2"))])),
         ("C2", T("REF", name="C1")),
-        # former F25 witnesses (fixed: later members of SEQUENCE / SET are checked) and known-finding regions (F82 / F83 / F85 / F81 neighbours)
+        # former F25 / F82 / F83 / F85 / F86 witnesses (fixed) and their neighbours; F181 region (W181)
         ("W25a", T("SEQUENCE", comps=[M("a", T("BOOLEAN")), M("b", I(C(0, 7)))])),
         ("W25b", T("SET", comps=[M("a", I(C(0, 7))), M("b", I(C(0, 7)))])),
         ("W25c", T("SEQUENCE", comps=[M("a", T("REF", name="I1")), M("b", I(C(0, 7))), M("c", S("PrintableString"))])),
@@ -561,8 +531,16 @@ def shapes_module():
         ("W83c", S("UTF8String", None, [("a", "c"), ("x", "z")])),
         ("W85a", T("SEQUENCE", comps=[M("a", I(U((None, 0), (5, None))))])),
         ("W85b", T("SEQUENCE", comps=[M("a", S("OCTET STRING", U((0, 2), (5, None))))])),
+        ("W85c", T("SEQUENCE OF", elem=T("BOOLEAN"), size=U((0, 1), (3, None)))), ("W85d", S("BIT STRING", U((0, 2), (5, None)))),
+        ("W85e", S("UTF8String", U((0, 1), (3, None)))), ("W85f", I(U((None, 0), (5, None)))), ("W85g", I(U((None, -3), (0, 0), (5, None)))),
+        ("W85h", T("SEQUENCE", comps=[M("l", T("SET OF", elem=I(C(0, 7)), size=U((0, 0), (2, None)))), M("m", T("REF", name="W85c"))])),
+        ("W83d", S("UTF8String", C(2, None), [("a", "z")])), ("W83e", T("SEQUENCE", comps=[M("u", S("UTF8String", None, [("0", "9")])), M("v", T("REF", name="W83a"))])),
+        ("W86a", S("BMPString", C(1, 1))), ("W86b", T("SEQUENCE", comps=[M("b", S("BMPString", C(0, 3)))])),
     ]
     return {"name": "SHP", "tagdefault": "AUTOMATIC", "types": ty}
+
+# F181 region: FROM on UTF8String beyond U+007F (asn1c's lexer loses track after a quadruple `{0,0,0,255}`: the type comes last, in a module of its own)
+UTF8_WIDE_FROM = [("W181b", T("UTF8String", size=C(1, 4), alpha=[("a", "z")])), ("W181", T("UTF8String", size=None, alpha=[("a", "\u00ff")]))]
 
 VACUOUS_TYPES = [    # former F48 region (a checker with nothing applicable called itself): now the checker of the underlying type
     ("SL1", T("INTEGER", cons=C(None, None))), ("SL2", T("OCTET STRING", size=C(0, None), alpha=None)),
@@ -581,7 +559,8 @@ def gen_modules(ctx, n, ntypes):
     out = []
     for i in range(n):
         td = ["AUTOMATIC", "IMPLICIT", "EXPLICIT", None][i % 4]
-        g = genmod.Gen(ctx.rng, tagdefault=td, kinds=KINDS, allow_ext=False, max_depth=3)
+        # (0..2^64-1) in an INTEGER_t is generated here: the checker reads it through asn_INTEGER2ulong since the repair of F81
+        g = genmod.Gen(ctx.rng, avoid=genmod.Avoid(unsigned_ge_2_63=False), tagdefault=td, kinds=KINDS, allow_ext=False, max_depth=3)
         out.append(g.gen_module(f"G{i}", ntypes))
     return out
 
@@ -851,6 +830,8 @@ def run(ctx):
     # former F48 region: types whose checker has nothing applicable (valid values, planted violations of the other components)
     sl = {"name": "SLP", "tagdefault": "AUTOMATIC", "types": VACUOUS_TYPES}
     run_module(ctx, sl, mtext(sl), make_cases(ctx, sl, 4, 20, 2), stats, 2)
+    uw = {"name": "UWF", "tagdefault": "AUTOMATIC", "types": UTF8_WIDE_FROM}
+    run_module(ctx, uw, mtext(uw), make_cases(ctx, uw, 6, 20, 2), stats, 2)
     ctx.cov["predicate"]["check"] = {"modules": stats["modules"], "cases": stats["P_cases"], "valid_values": stats["valid"], "violating_values": stats["invalid"],
                                      "case_kinds": dict(stats["cases"]), "failures_outside_known_regions": stats["P_fail"], "known_region_hits": dict(stats["known"]),
                                      "inside_proved_domain_and_correct": stats["in_domain"], "spec_vs_oracle_disagreements": stats["spec_vs_oracle"],
